@@ -45,9 +45,16 @@ def subspace(a, b):
 _KU = z3.Const("k!u", Name)
 
 
+DictUnion = z3.Function("dict_union", z3.ArraySort(Name, I), z3.ArraySort(Name, I), z3.ArraySort(Name, I))
+_ua, _ub = z3.Const("a!u", z3.ArraySort(Name, I)), z3.Const("b!u", z3.ArraySort(Name, I))
+AX_UNION = [z3.ForAll([_ua, _ub, _KU], DictUnion(_ua, _ub)[_KU] == z3.If(_ub[_KU] >= 0, _ub[_KU], _ua[_KU]),
+                      patterns=[DictUnion(_ua, _ub)[_KU]])]
+
+
 def union(a, b):
-    """dict union a | b (values of b win); fixed bound-variable name so that equal unions are equal terms"""
-    return z3.Lambda([_KU], z3.If(b[_KU] >= 0, b[_KU], a[_KU]))
+    """dict union a | b (values of b win): an uninterpreted function with its pointwise definition as an axiom, so that
+    congruence (equal arguments => equal unions) and pointwise reasoning are both available"""
+    return DictUnion(a, b)
 
 
 def extends(big, small):
